@@ -7,6 +7,9 @@
 //   n2sra <d|f> <hexbits> <w 1|2|4> <pre-units>                     -> the same for prec 0..40 x fmt 0,1,2, joined by ';'
 //   n2si  <8|16|32|64> <signed 0|1> <decimal> <w 1|2|4> <pre-units> -> units appended after <pre>
 //   n2sir <8|16|32|64> <decimal>                                     -> units written by IntToString<true> (reversed digits)
+//   n2sirs <8|16|32|64> <signed 0|1> <decimal> -> units appended by NumberToString<true>(stream, v): sign, then reversed digits
+//   n2sfi <d|f> <hexbits> <form 0..5> <prec> <fmt> -> the text through one way of giving the format: 0 = argument omitted,
+//        1 = RealFormatInfo{}, 2 = RealFormatInfo{prec}, 3 = RealFormatInfo{type}, 4 = info = prec, 5 = info = type
 //   n2sx  <d|f> <hexbits> <prec> <fmt>    -> "ok" | "diff <qentem text> <snprintf text>"   (second opinion)
 //   n2sxa <d|f> <hexbits> <pmin>          -> "ok" | "diff <prec> <fmt> <qentem> <snprintf>" (all prec 0..40 x 3 formats;
 //                                            Default format only from precision <pmin>)
@@ -80,6 +83,33 @@ static std::string doInt(unsigned bits, bool sgn, const std::string &dec, const 
         }
     }
     return "bad-op";
+}
+
+template <typename Num_T>
+static std::string doIntRevStream(Num_T v) {
+    StringStream<char> ss;
+    Digit::NumberToString<true>(ss, v);
+    return vh::show_units(ss.First(), ss.Length());
+}
+
+static std::string doFormatForm(bool is_double, uint64_t bits, unsigned form, unsigned prec, unsigned fmt) {
+    StringStream<char>    ss;
+    Digit::RealFormatInfo info;
+    switch (form) {
+        case 0:
+            if (is_double) Digit::NumberToString(ss, dbl(bits));
+            else Digit::NumberToString(ss, flt(uint32_t(bits)));
+            return vh::show_units(ss.First(), ss.Length());
+        case 1: info = Digit::RealFormatInfo{}; break;
+        case 2: info = Digit::RealFormatInfo{SizeT32(prec)}; break;
+        case 3: info = Digit::RealFormatInfo{Digit::RealFormatType(fmt)}; break;
+        case 4: info = SizeT32(prec); break;
+        case 5: info = Digit::RealFormatType(fmt); break;
+        default: return "bad-op";
+    }
+    if (is_double) Digit::NumberToString(ss, dbl(bits), info);
+    else Digit::NumberToString(ss, flt(uint32_t(bits)), info);
+    return vh::show_units(ss.First(), ss.Length());
 }
 
 template <typename Num_T>
@@ -303,6 +333,35 @@ int main(int argc, char **argv) {
                 case 64: vh::emit(doIntRev((unsigned long long)v)); break;
                 default: vh::emit("bad-op");
             }
+        } else if (t[0] == "n2sirs" && t.size() == 4) {
+            const unsigned bits = unsigned(strtoul(t[1].c_str(), nullptr, 10));
+            if (t[2] == "1") {
+                long long v = strtoll(t[3].c_str(), nullptr, 10);
+                switch (bits) {
+                    case 8: vh::emit(doIntRevStream((signed char)v)); break;
+                    case 16: vh::emit(doIntRevStream((short)v)); break;
+                    case 32: vh::emit(doIntRevStream((int)v)); break;
+                    case 64: vh::emit(doIntRevStream((long long)v)); break;
+                    default: vh::emit("bad-op");
+                }
+            } else {
+                unsigned long long v = strtoull(t[3].c_str(), nullptr, 10);
+                switch (bits) {
+                    case 8: vh::emit(doIntRevStream((unsigned char)v)); break;
+                    case 16: vh::emit(doIntRevStream((unsigned short)v)); break;
+                    case 32: vh::emit(doIntRevStream((unsigned int)v)); break;
+                    case 64: vh::emit(doIntRevStream((unsigned long long)v)); break;
+                    default: vh::emit("bad-op");
+                }
+            }
+        } else if (t[0] == "n2sfi" && t.size() == 6) {
+            const bool     is_d = (t[1] == "d");
+            const uint64_t bits = strtoull(t[2].c_str(), nullptr, 16);
+            const unsigned form = unsigned(strtoul(t[3].c_str(), nullptr, 10));
+            const unsigned prec = unsigned(strtoul(t[4].c_str(), nullptr, 10));
+            const unsigned fmt  = unsigned(strtoul(t[5].c_str(), nullptr, 10));
+            if (fmt > 2) { vh::emit("bad-op"); continue; }
+            vh::emit(doFormatForm(is_d, bits, form, prec, fmt));
         } else if (t[0] == "n2sx" && t.size() == 5) {
             const bool     is_d = (t[1] == "d");
             const uint64_t bits = strtoull(t[2].c_str(), nullptr, 16);
